@@ -14,3 +14,4 @@ driver("drv_subprocess", variant="plain", ldflags="-Wl,--wrap=pipe -Wl,--wrap=wa
 driver("verif_child", variant="plain", lib=False)
 driver("drv_expect", variant="plain")
 driver("drv_mathvec", variant="asan")
+driver("drv_timefmt", variant="plain")
